@@ -713,11 +713,70 @@ func memFast() uint64 {
 	return memSample[0].Value.Uint64()
 }
 
-// allocation allowed for decoding n input bytes: generous constant factor (pointer-rich
-// targets: every 1-byte element may become a 24-byte slice header + boxed values, slices grow
-// by 1.5x) plus a constant for pooled streams and reflection; a declared-size driven
-// allocation (e.g. 100 MB for a 10-byte input) is far above it.
-func allocBound(n int) uint64 { return uint64(n)*768 + 256*1024 }
+// allocation allowed for decoding n input bytes into a target that ends up as v: a constant
+// factor per input byte for the leaves (boxed byte strings, big integers, error values), a
+// constant for pooled streams and reflection, and — accounted from the value the decoder
+// actually produced, also on failure — what its slices and pointers justify: a slice that holds
+// k elements may have cost 4 x (k+4) element slots (growth by 1.5x from capacity 4, old copies
+// included), a non-nil pointer one target.  A backing array sized from a CLAIMED length, or a
+// buffer for a declared size that the input does not have, is far above it.
+//
+// (A pointer target is only stored once it decoded completely, so after an error inside a pointer
+// the partial value is not visible: failed decodes into pointer-holding types get the wider
+// per-byte factor that the value-blind bound of the earlier rounds used.)
+func allocBound(n int, v reflect.Value, blind bool) uint64 {
+	f := uint64(256)
+	if blind {
+		f = 768
+	}
+	return uint64(n)*f + 256*1024 + valueBudget(v, 0)
+}
+
+func valueBudget(v reflect.Value, depth int) uint64 {
+	if depth > 64 || !v.IsValid() {
+		return 0
+	}
+	var b uint64
+	switch v.Kind() {
+	case reflect.Slice:
+		if v.IsNil() {
+			return 0
+		}
+		es := uint64(v.Type().Elem().Size())
+		b = 4 * uint64(v.Len()+4) * es
+		if k := v.Type().Elem().Kind(); k == reflect.Uint8 {
+			return b
+		}
+		for i := 0; i < v.Len(); i++ {
+			b += valueBudget(v.Index(i), depth+1)
+		}
+	case reflect.Array:
+		if k := v.Type().Elem().Kind(); k == reflect.Uint8 {
+			return 0
+		}
+		for i := 0; i < v.Len(); i++ {
+			b += valueBudget(v.Index(i), depth+1)
+		}
+	case reflect.Struct:
+		if v.Type() == bigPtrType.Elem() {
+			return 64
+		}
+		for i := 0; i < v.NumField(); i++ {
+			if v.Type().Field(i).PkgPath == "" {
+				b += valueBudget(v.Field(i), depth+1)
+			}
+		}
+	case reflect.Ptr:
+		if !v.IsNil() {
+			b = 2*uint64(v.Type().Elem().Size()) + valueBudget(v.Elem(), depth+1)
+		}
+	case reflect.Interface:
+		if !v.IsNil() {
+			b = 64 + valueBudget(v.Elem(), depth+1)
+		}
+	}
+	return b
+}
 
 func safeDecode(lib string, b []byte, target interface{}) (err error, panicked bool) {
 	defer func() {
@@ -776,15 +835,20 @@ func decodeOp(t *T, h []byte, arbiter bool) string {
 		o.Fail(step, "panic-decode", fmt.Sprintf("type=[%s] input=%s %v", t.tokens(), hexs(h), err))
 		return "PANIC"
 	}
-	if m1-m0 > allocBound(len(h))/2 {
+	blind := err != nil && t.any(func(x *T) bool { return x.K == "ptr" || x.K == "iface" })
+	if m1-m0 > allocBound(len(h), p.Elem(), blind)/2 {
 		// exact measure on a repetition (a fresh target; the type cache is warm now)
 		o.Count("alloc.exact-remeasure")
 		p2 := reflect.New(rt)
 		e0 := memNow()
 		safeDecode("kai", h, p2.Interface())
 		e1 := memNow()
-		if d := e1 - e0; d > allocBound(len(h)) {
-			o.Fail(step, "alloc-unbounded", fmt.Sprintf("type=[%s] input=%s allocated=%d bound=%d", t.tokens(), hexs(h), d, allocBound(len(h))))
+		if d, bd := e1-e0, allocBound(len(h), p2.Elem(), blind); d > bd {
+			hx := hexs(h)
+			if len(hx) > 400 {
+				hx = hx[:400] + fmt.Sprintf("...(%d bytes)", len(h))
+			}
+			o.Fail(step, "alloc-unbounded", fmt.Sprintf("type=[%s] input=%s allocated=%d bound=%d (the decoded value, also a partial one after an error, justifies %d of it)", t.tokens(), hx, d, bd, valueBudget(p2.Elem(), 0)))
 		}
 	}
 	var obs string
@@ -2031,11 +2095,17 @@ func runCase(r *gen.Rand, c int) {
 	real := c%8 == 7
 	rec := c%16 == 3
 	edge := c%16 == 11
+	wide := c%16 == 13
 	recFam := 0
+	if c%64 == 5 {
+		unlimitedReader(r)
+	}
 	if c%64 == 1 {
 		negativeBigChecks()
 	}
-	if edge {
+	if wide {
+		t, encs = wideCase(r)
+	} else if edge {
 		o.Count("case.edge-list")
 		encs = edgeCase(r)
 		t = tIface
@@ -2069,6 +2139,14 @@ func runCase(r *gen.Rand, c int) {
 			t, encs, reDecode = realCase(r, which)
 		}
 		o.Mark("real:" + fmt.Sprint(which, len(encs)))
+		// hand-mutated fields: accepted by the real type's own decoder => re-encodes to the input
+		fieldMutants(r, encs, reDecode, 8)
+		if (which == 1 || which == 2) && len(encs) > 0 {
+			receiptStatusMutants(r, encs[0], reDecode)
+		}
+		if c%16 == 7 {
+			otherRealDecoders(r)
+		}
 	} else {
 		if r.Chance(2, 3) {
 			t = genStruct(r, 3)
@@ -2265,6 +2343,9 @@ func runCase(r *gen.Rand, c int) {
 func main() {
 	if len(os.Args) > 1 && os.Args[1] == "-child" {
 		childMain()
+	}
+	if len(os.Args) > 2 && os.Args[1] == "-unl" {
+		unlChildMain(os.Args[2])
 	}
 	if len(os.Args) > 3 && os.Args[1] == "-rec" {
 		recChildMain(os.Args[2:])
